@@ -8,6 +8,7 @@ import (
 	gocontext "context"
 	"encoding/json"
 
+	"github.com/orda-io/orda/client/pkg/iface"
 	"github.com/orda-io/orda/client/pkg/model"
 	"github.com/orda-io/orda/client/pkg/orda"
 	"github.com/orda-io/orda/client/pkg/vf"
@@ -152,4 +153,62 @@ func VF_C19_Rest() {
 	}
 	vf.Reach("patched-twice")
 	vf.Assert(a.errs == 0 && jsonEq(doc.GetValue(), parseJSON(t2)), "C19 a subscribed client converges to the target of every patch")
+}
+
+// VF_C11_PatchRace (C11, C19; interleaving): a REST patch of a document
+// overlaps a subscribed client's push of the same document (context switches at
+// every database round trip and at the ends of the wire).  Whatever the schedule:
+// both requests are answered, the log stays gapless, every version written to
+// the user-visible document is a log position and the versions never decrease,
+// and at quiescence the user document is the JSON view of the replay of the log
+// up to the version it records.
+func VF_C11_PatchRace() {
+	vf.Preemptions(1 + vf.Tier())
+	w := vfNewWorld()
+	w.seedCollection(vfCol, 1)
+	a := w.newPeer("a", vfCUIDx)
+	a.tr.wire = true
+	doc := a.cli.CreateDocument(vfKey, a.handlers())
+	_, e := doc.PutToObject("a", "1")
+	vf.Assert(e == nil && a.cli.Sync() == nil, "client creates the document")
+	vf.Quiesce()
+	_, e = doc.PutToObject("c", "x")
+	vf.Assert(e == nil, "client put succeeds")
+	done := make(chan int, 2)
+	var perr, serr error
+	var pres *model.PatchMessage
+	go func() { serr = a.cli.Sync(); done <- 1 }()
+	go func() {
+		pres, perr = w.svc.PatchDocument(gocontext.TODO(), &model.PatchMessage{Key: vfKey, Collection: vfCol, Json: `{"a":"1","h":"y"}`})
+		done <- 2
+	}()
+	<-done
+	<-done
+	vf.Quiesce()
+	vf.Reach("both-returned")
+	_ = serr
+	vf.Assert(perr == nil && pres != nil, "C19 the REST patch is answered")
+	d, _ := w.store.GetDatatypeByKey(context0(), 1, vfKey)
+	vf.Assert(d != nil && w.logInvariant(d.DUID), "C06 the log stays gapless")
+	vs := w.store.RealVersions
+	for i := 1; i < len(vs); i++ {
+		vf.Assert(vs[i] >= vs[i-1], "C11 the version recorded in the user document never decreases")
+	}
+	real := w.store.Real[vfCol]
+	vf.Assert(len(real) == 1 && real[0].ID == vfKey && real[0].Ver <= d.Sseq.End, "C11 one user document under the datatype's key, its version a log position")
+	// replay of the log up to the recorded version
+	var prefix []*model.Operation
+	for s := uint64(1); s <= real[0].Ver; s++ {
+		for _, o := range w.store.Operations {
+			if o.DUID == d.DUID && uint64(o.Sseq) == s {
+				prefix = append(prefix, copyOp(o.GetOperation()))
+			}
+		}
+	}
+	rc := orda.NewClient(orda.NewLocalClientConfig(vfCol), "check")
+	r := rc.CreateDocument(vfKey, nil)
+	_, rerr := r.(iface.Datatype).ReceiveRemoteModelOperations(prefix, false)
+	vf.Assert(rerr == nil, "C11 the log prefix replays")
+	raw, _ := json.Marshal(real[0].Data)
+	vf.Assert(jsonEq(parseJSON(string(raw)), r.GetValue()), "C11 the user document is the JSON view of the replay of the log up to the version it records")
 }
